@@ -38,7 +38,9 @@ func runC13(c *core.Ctx) {
 	c.Rule("C13.equalfields", "A7: every field a node's Equal compares is written by MarshalJSON and assigned by unmarshal")
 	c.Rule("C13.factory", "A9: JSONNode.getNode never reaches n.unmarshal with n unset (unknown typeOf ⇒ error)")
 	c.Rule("C13.codec", "A7: a value written with pkg.Format<S> is read back with pkg.Parse<S> of the same package (JSONNode.SetDuration/Duration and every pipeline node's MarshalJSON/UnmarshalJSON pair): two duration syntaxes (influxql: w,d,u vs. Go: none of them) do not round-trip")
-	c.Rule("C13.strescape", "A1: StringNode.Format writes a single-quoted literal rune by rune and puts a backslash in front of a rune exactly when that rune is the quote (the parser's newString removes a backslash exactly in front of a quote)")
+	c.Rule("C13.strescape", "A1: StringNode.Format writes the literal raw between triple quotes when TripleQuotes is set or the literal ends in a backslash (and has no triple quote inside; F43: such a literal has no single-quoted form), and otherwise single-quoted rune by rune with a backslash in front of a rune exactly when that rune is the quote (the parser's newString removes a backslash exactly in front of a quote)")
+	c.Rule("C13.quoted", "A3: F42: the text of a ReferenceNode reaches formatted output only through the escaping loop of ReferenceNode.Format (a range over the text that tests each rune against the double quote); no Format method, nor a helper it calls, writes or concatenates ReferenceNode.Reference otherwise")
+	c.Rule("C13.mlspan", "A3: F44: in parser.precedence the value passed as newBinary's multi-line flag does not derive from the Position() of an operand node (an operand's position is its operator, so such a span contains the operand's own line breaks and formatting never stabilises)")
 	c.Rule("C13.pipetype", "A7: per pipeline node type, the typeOf literal(s) written by MarshalJSON equal those accepted by UnmarshalJSON")
 	c.Rule("C13.registry", "A7: every typeOf a pipeline node marshals is a key of exactly one construction registry, and a chainFunctions/multiParents factory yields the node type that marshals that key")
 	c.Rule("C13.parent", "A7: every chain node type that can be marshalled is accepted as a parent on read: it implements chainnodeAlias or isChainNode has a case for it")
@@ -52,6 +54,8 @@ func runC13(c *core.Ctx) {
 		c13JSONRead(c, pkg)
 		c13Codec(c, pkg, "JSONNode", "SetDuration", "JSONNode", "Duration")
 		c13StrEscape(c, pkg)
+		c13Quoted(c, pkg)
+		c13MultiLineSpan(c, pkg)
 	} else {
 		c.Undecided("C13.typeof", "anchor:tick/ast", token.NoPos, "package not loaded")
 	}
@@ -1401,6 +1405,10 @@ func c13StrEscape(c *core.Ctx, pkg *packages.Package) {
 				return "isquote", false
 			case a.Op == token.EQL && strings.HasSuffix(a.L, ".Comment") && a.R == "nil":
 				return "nocomment", false
+			case a.Call != nil && a.Call.Name() == "HasSuffix" && strings.Contains(a.Key, "("+recv+".Literal, ") && (strings.Contains(a.Key, "`\\`") || strings.Contains(a.Key, `"\\\\"`)):
+				return "endsbs", false
+			case a.Call != nil && a.Call.Name() == "Contains" && strings.Contains(a.Key, "("+recv+".Literal, ") && strings.Contains(a.Key, "'''"):
+				return "hastriple", false
 			}
 			return "", false
 		}}
@@ -1409,10 +1417,11 @@ func c13StrEscape(c *core.Ctx, pkg *packages.Package) {
 		c.Undecided("C13.strescape", "StringNode.Format", fn.Decl.Pos(), "%v", err)
 		return
 	}
-	an.CheckTable(c, "C13.strescape", "StringNode.Format", paths, an.Table{Atoms: []string{"triple", "isquote"},
+	an.CheckTable(c, "C13.strescape", "StringNode.Format", paths, an.Table{Atoms: []string{"triple", "endsbs", "hastriple", "isquote"},
 		Outcome: func(p *an.Path) string {
 			var s []string
 			in := false
+			form, rawText := "", false
 			for _, e := range p.Events {
 				switch {
 				case e.Kind == "loop":
@@ -1430,20 +1439,35 @@ func c13StrEscape(c *core.Ctx, pkg *packages.Package) {
 					}
 				case in && (e.Kind == "break" || e.Kind == "continue"):
 					s = append(s, e.Kind)
+				case !in && e.Kind == "call" && len(e.Args) == 1:
+					switch {
+					case form == "" && e.Name == "WriteString" && e.Args[0] == `"'''"`:
+						form = "raw"
+					case form == "" && e.Name == "WriteByte" && e.Args[0] == `'\''`:
+						form = "single"
+					case e.Name == "WriteString" && e.Args[0] == recv+".Literal":
+						rawText = true
+					}
 				}
 			}
-			return strings.Join(s, ",")
-		},
-		Relevant: func(p *an.Path) bool {
-			a := p.Assign()
-			t, ok := a["triple"]
-			return ok && !t
+			switch {
+			case form == "raw" && rawText && len(s) == 0:
+				return "raw"
+			case form == "single" && !rawText:
+				return "single:" + strings.Join(s, ",")
+			}
+			return form + "?:" + strings.Join(s, ",")
 		},
 		Expect: func(a map[string]bool) string {
-			if a["isquote"] {
-				return "backslash,rune"
+			// F43: a literal that ends in a backslash has no single-quoted form (the backslash would escape the closing quote and
+			// there is no escape for the backslash): it is written raw between triple quotes, unless it contains a triple quote
+			if a["triple"] || (a["endsbs"] && !a["hastriple"]) {
+				return "raw"
 			}
-			return "rune"
+			if a["isquote"] {
+				return "single:backslash,rune"
+			}
+			return "single:rune"
 		}})
 }
 
@@ -1538,4 +1562,181 @@ func c13JSONRead(c *core.Ctx, pkg *packages.Package) {
 		})
 		c.Check(hands, "C13.lexcomment", "lexRegex#comment", fn.Decl.Pos(), "after =~, !~ or = the lexer goes straight to lexRegex; a `// comment` there must be handed to lexComment, otherwise it is read as the empty regex and the script no longer parses")
 	}
+}
+
+// c13Quoted: F42. The text of a reference ("name") may contain the quote; it reaches formatted output only through
+// ReferenceNode.Format's escaping loop. Any Format method (or a helper it calls that is not itself a Format) that puts
+// ReferenceNode.Reference into the output by concatenation or a plain write produces text that does not parse back.
+func c13Quoted(c *core.Ctx, pkg *packages.Package) {
+	info := pkg.TypesInfo
+	byObj := map[*types.Func]*core.Func{}
+	for _, f := range core.AllFuncs(pkg) {
+		if o, ok := info.Defs[f.Decl.Name].(*types.Func); ok {
+			byObj[o] = f
+		}
+	}
+	isRefText := func(e ast.Expr) bool {
+		sel, ok := ast.Unparen(e).(*ast.SelectorExpr)
+		if !ok || sel.Sel.Name != "Reference" {
+			return false
+		}
+		s, ok := info.Selections[sel]
+		if !ok || s.Kind() != types.FieldVal {
+			return false
+		}
+		n := core.NamedOf(s.Recv())
+		return n != nil && n.Obj().Name() == "ReferenceNode" && n.Obj().Pkg() == pkg.Types
+	}
+	sites, escaped := 0, 0
+	for _, f := range core.AllFuncs(pkg) {
+		if f.Decl.Name.Name != "Format" || f.Decl.Recv == nil {
+			continue
+		}
+		// the method and the non-Format helpers it calls
+		units := []*core.Func{f}
+		seen := map[*core.Func]bool{f: true}
+		for i := 0; i < len(units) && i < 50; i++ {
+			ast.Inspect(units[i].Decl.Body, func(nd ast.Node) bool {
+				if call, ok := nd.(*ast.CallExpr); ok {
+					if m := core.Callee(info, call); m != nil && byObj[m] != nil && m.Name() != "Format" && !seen[byObj[m]] {
+						seen[byObj[m]] = true
+						units = append(units, byObj[m])
+					}
+				}
+				return true
+			})
+		}
+		for _, u := range units {
+			// range expressions whose loop tests the element against the double quote: the escaping loop
+			okRange := map[ast.Expr]bool{}
+			ast.Inspect(u.Decl.Body, func(nd ast.Node) bool {
+				rs, ok := nd.(*ast.RangeStmt)
+				if !ok || !isRefText(rs.X) || rs.Value == nil {
+					return true
+				}
+				v, _ := rs.Value.(*ast.Ident)
+				tests := false
+				ast.Inspect(rs.Body, func(x ast.Node) bool {
+					if be, ok := x.(*ast.BinaryExpr); ok && be.Op == token.EQL && v != nil {
+						if id, ok := ast.Unparen(be.X).(*ast.Ident); ok && info.Uses[id] == info.Defs[v] {
+							if lit, ok := ast.Unparen(be.Y).(*ast.BasicLit); ok && lit.Value == `'"'` {
+								tests = true
+							}
+						}
+					}
+					return true
+				})
+				if tests {
+					okRange[rs.X] = true
+				}
+				return true
+			})
+			ast.Inspect(u.Decl.Body, func(nd ast.Node) bool {
+				e, ok := nd.(ast.Expr)
+				if !ok || !isRefText(e) {
+					return true
+				}
+				sites++
+				cons := core.RecvName(f.Decl) + ".Format"
+				if u != f {
+					cons += "→" + u.Decl.Name.Name
+				}
+				if okRange[e] {
+					escaped++
+					c.Ok("C13.quoted", cons)
+					return false
+				}
+				c.Fail("C13.quoted", cons+"#raw-reference", e.Pos(), "%s puts the text of a reference into the formatted script without escaping the double quote: a name that contains one (dbrp \"a\\\"b\".\"rp\") is written as \"a\"b\", which does not parse; references are written by ReferenceNode.Format only", cons)
+				return false
+			})
+		}
+	}
+	c.Floor("C13.quoted", "places where a Format method writes reference text", sites, 1)
+	c.Floor("C13.quoted", "escaping loops over reference text", escaped, 1)
+}
+
+// c13MultiLineSpan: F44. A binary node's position is its operator, so a span that starts or ends at an operand's Position()
+// contains the line breaks inside that operand; Format writes this node's own line break right after its operator. The
+// span whose line breaks make a binary node multi line therefore must not be bounded by an operand's Position(): otherwise the
+// line break of an inner expression is counted for the outer one and moves up one operator with every format pass.
+func c13MultiLineSpan(c *core.Ctx, pkg *packages.Package) {
+	info := pkg.TypesInfo
+	fn := c.Need("C13.mlspan", "tick/ast", "parser", "precedence")
+	nb := c.Need("C13.mlspan", "tick/ast", "", "newBinary")
+	if fn == nil || nb == nil {
+		return
+	}
+	// the bool parameter of newBinary
+	bi := -1
+	k := 0
+	for _, fl := range nb.Decl.Type.Params.List {
+		for range fl.Names {
+			if b, ok := info.Types[fl.Type].Type.Underlying().(*types.Basic); ok && b.Kind() == types.Bool {
+				bi = k
+			}
+			k++
+		}
+	}
+	if bi < 0 {
+		c.Undecided("C13.mlspan", "newBinary#multiline-param", nb.Decl.Pos(), "no bool parameter")
+		return
+	}
+	def := map[types.Object]ast.Expr{}
+	ast.Inspect(fn.Decl.Body, func(nd ast.Node) bool {
+		if as, ok := nd.(*ast.AssignStmt); ok && len(as.Lhs) == len(as.Rhs) {
+			for i, l := range as.Lhs {
+				if id, ok := l.(*ast.Ident); ok {
+					o := info.Defs[id]
+					if o == nil {
+						o = info.Uses[id]
+					}
+					if o != nil {
+						def[o] = as.Rhs[i]
+					}
+				}
+			}
+		}
+		return true
+	})
+	n := 0
+	ast.Inspect(fn.Decl.Body, func(nd ast.Node) bool {
+		call, ok := nd.(*ast.CallExpr)
+		if !ok {
+			return true
+		}
+		if m := core.Callee(info, call); m == nil || m != info.Defs[nb.Decl.Name] || bi >= len(call.Args) {
+			return true
+		}
+		n++
+		arg := ast.Unparen(call.Args[bi])
+		for i := 0; i < 3; i++ {
+			if id, ok := arg.(*ast.Ident); ok {
+				if d, ok := def[info.Uses[id]]; ok {
+					arg = ast.Unparen(d)
+					continue
+				}
+			}
+			break
+		}
+		bad := ""
+		ast.Inspect(arg, func(x ast.Node) bool {
+			pc, ok := x.(*ast.CallExpr)
+			if !ok {
+				return true
+			}
+			sel, ok := pc.Fun.(*ast.SelectorExpr)
+			if !ok || sel.Sel.Name != "Position" || len(pc.Args) != 0 {
+				return true
+			}
+			if tv, ok := info.Types[sel.X]; ok {
+				if nn := core.NamedOf(tv.Type); nn != nil && nn.Obj().Name() == "Node" && nn.Obj().Pkg() == pkg.Types {
+					bad = types.ExprString(pc)
+				}
+			}
+			return true
+		})
+		c.Check(bad == "", "C13.mlspan", "parser.precedence#multiline", call.Pos(), "the text span that decides whether a binary expression is multi line is bounded by %s, the position of an operand node — for a binary operand that is its operator, so line breaks inside the operand (a nested multi line expression, a string with a new line) count for this node; Format writes this node's line break after its own operator, the next parse counts it for the node above: the line break moves up one operator per pass and formatting is never stable", bad)
+		return true
+	})
+	c.Floor("C13.mlspan", "newBinary calls in parser.precedence", n, 1)
 }
